@@ -140,6 +140,8 @@ type Prog struct {
 	SUPkg  *ssa.Package
 	Src    map[string][]byte // by full file name
 
+	ksaZeroKinds uint16
+
 	funcDecls map[string]*ast.FuncDecl
 	memo      map[string]interface{}
 }
